@@ -169,5 +169,13 @@ class SpooledTextFile(_io.TextIOBase):
         file = self._file
         self._path = self._get_unused_path()
         newfile = self._file = self._path.open(mode='x+')
-        newfile.write(file.getvalue())
-        newfile.seek(file.tell(), 0)
+        contents = file.getvalue()
+        position = file.tell()
+        newfile.write(contents)
+        if position != len(contents):
+            # The position of the memory buffer is a number of characters,
+            # which is not a valid position in a text file on disk
+            # (the two differ as soon as the contents has non-ASCII characters).
+            newfile.seek(0)
+            newfile.read(position)
+            newfile.seek(newfile.tell())
